@@ -66,8 +66,33 @@ META = dict(
          '(3) C13_keyed_cache_transparent_iff: a cache keyed by key(request), any eviction, is unobservable IFF key determines '
          'the stored result; negative direction proved on the witness of seeded/C13-2 / C07-4 (marker descriptor cached by '
          '(operator, element id) without the table group: 022039 12 vs 13 bits). '
-         'The model is immutable, so dependence through Python aliasing / object identity (id() reuse after garbage collection, '
-         'mutation of shared cached descriptors) cannot be exhibited by theorems; that part is carried by the oracle: histories on '
+         '(4) HEAP level (Msg/Heap.lean, C13_heap_*): the same process state as a store of mutable objects with references - the '
+         'table-group cache refers to group objects whose Table B / D entries are references to ONE descriptor object each, '
+         'templates, compiled templates and decoded messages refer to those same objects, CoderState builds [[]]*n / [{}]*n (n '
+         'references to one object) for compressed data and n objects otherwise, wire() rewrites the message object in place, the '
+         'Table C memo of a cached group grows at run time, and every operation may perform arbitrary EXTRA writes W. Proved for '
+         'histories of any length: the ownership invariant Sep (everything reachable from a cache or a kept message is allocated, '
+         'so new objects are owned by nobody; a kept message is held under one key) is preserved by every operation whose extra '
+         'writes respect the discipline "no write to a cell reachable from a cache or a kept message"; under it the heap model '
+         'REFINES the value model (abs commutes with every operation, equal outputs: C13_heap_refines_value_model), hence '
+         'C13_heap_history_independent; compressed: all n subsets show the one shared list / dict whatever is appended through '
+         'whichever alias (C13_compressed_subsets_share); uncompressed: a write through the alias of subset i never changes '
+         'subset j (C13_uncompressed_subsets_separate). The discipline is shown NECESSARY by proved negations: a decode that '
+         'patches nbits of the cached ElementDescriptor answers differently the second time; an uncompressed CoderState over '
+         '[[]]*n leaks appends into the other subsets. The discipline is a CHECKED fact of the implementation on every run '
+         '(harness/c13heap.py): __setattr__/__delattr__ hooks on the descriptor / statement / table classes, an identity + content '
+         'snapshot of everything reachable from every table group and every compiled template taken at insertion and re-compared '
+         'after EVERY operation of every history (only the Table C memo may gain id -> OperatorDescriptor(id)), `is` checks of the '
+         'CoderState / TemplateData per-subset containers and of decoded descriptors against the cached Table B objects; a write '
+         'reaching a cached object outside load / compile of its key is reported as a failure of Sep, with a failing history when '
+         'the fresh-interpreter oracle finds one (probe operations appended) and as no-failing-input-found otherwise. Every '
+         'oracle history is also executed on the heap model (driver op heap: outcome, identity pattern of the per-subset lists, '
+         'cached cells stable, Sep bound, heap outputs = value outputs). '
+         'What remains outside the theorems (still PARTIAL): objects outside the modelled ownership picture - id() reuse after '
+         'garbage collection (renderer / querent caches keyed by id: oracle only), the pseudo descriptors a COMPILED template owns '
+         'and shares between messages and the template object it keeps (digest audit only), attributes of descriptor objects the '
+         'coder does not read, value lists shared by BufrMessage.subset() with its source (C10), thread safety. That part is carried '
+         'by the oracle: histories on '
          'ONE reused Decoder/Encoder/renderer/querent per slot - random traffic, cross-version families derived mechanically from '
          'the bundled tables (550 elements / 190 sequences defined differently in two of the 44 bundled table groups; marker '
          'operators, class 33, associated fields, 203/201/202/207/208, replication, sequences), and stream conversion with released '
@@ -75,11 +100,14 @@ META = dict(
          'Correspondence: cache level (key lists, contents) and session level (every oracle history replayed on Session.step: '
          'outcome class, failing stage, both caches\' keys, kept objects and wired flags after every operation).',
     technique='Lean 4 theorems (invariant of reachable states, refinement of a state machine to a stateless specification by '
-              'induction over operation lists, iff-characterisation of transparent keyed caches) + model/implementation '
+              'induction over operation lists, iff-characterisation of transparent keyed caches, heap model with ownership invariant and '
+              'frame lemmas refining the value model, proved negations) + in-process write audit of the cached objects + model/implementation '
               'correspondence on cache and session histories + implementation-vs-fresh-interpreter differential oracle on '
               'operation histories over mechanically derived cross-table-version inputs',
-    note='Partial: Python object identity/aliasing is not modelled (DESIGN 4.3); the fresh-interpreter comparison is the only '
-         'evidence for that part. Table-definition messages and extra B/D entries are excluded (C20). The session refinement '
+    note='Partial: object identity / aliasing is modelled for the ownership picture of notes/C13Heap.md (cached descriptor objects, '
+         'per-subset containers, in-place wiring, Table C memo) and its write discipline is audited on the real objects at every '
+         'operation; id() reuse after garbage collection, compiled-template-owned pseudo descriptors and threads are not in the '
+         'heap model (oracle / digest audit only). Table-definition messages and extra B/D entries are excluded (C20). The session refinement '
          'assumes the cache limit is never set to 0 in mid-session (with 0 the code raises KeyError on every miss while kept '
          'objects stay usable: proved counterexample in Props/C13Session.lean).',
 )
@@ -419,10 +447,15 @@ def fresh_group_state(key):
     c = tables.TableGroupCache()
     saved = tables.MAXIMUM_NUMBER_OF_CACHED_TABLE_GROUPS
     tables.MAXIMUM_NUMBER_OF_CACHED_TABLE_GROUPS = 50
+    from harness import c13heap
+    ha = c13heap._CURRENT[0]
+    prev = ha.enter('load', 'a private copy of %s for the audit' % key_str(key)) if ha is not None else None
     try:
         return group_state(c.get(key))
     finally:
         tables.MAXIMUM_NUMBER_OF_CACHED_TABLE_GROUPS = saved
+        if ha is not None:
+            ha.leave(prev)
 
 
 def key_str(k):
@@ -446,7 +479,7 @@ def tg_key(v, loc):
 # ---------------------------------------------------------------------------------------------
 # executing a history on the implementation (in a process of its own)
 class Runner(object):
-    def __init__(self, pool, limit):
+    def __init__(self, pool, limit, heap=True):
         from pybufrkit import tables
         self.pool = pool
         self.tables = tables
@@ -482,20 +515,34 @@ class Runner(object):
         class LoggingCache(tables.TableGroupCache):
             def get(self, key):
                 tag = 'ok'
+                heap_ = runner.heap
+                miss = heap_ is not None and key not in self._groups
+                if miss:
+                    prev = heap_.enter('load', key_str(key))     # heap audit: the only phase in which the objects of `key` are written
                 try:
                     return tables.TableGroupCache.get(self, key)
                 except BaseException as e:
                     tag = core.err_tag(e)
                     raise
                 finally:
+                    if miss:
+                        heap_.leave(prev)
+                        heap_.sync_tables(self)                  # evicted groups forgotten, the new one snapshotted + registered
                     runner.log.append((key_str(key), tag, [key_str(k) for k in self._groups], tables.MAXIMUM_NUMBER_OF_CACHED_TABLE_GROUPS))
                     runner.elog.append(('t', key_str(key), tag))
 
             def invalidate(self):
                 tables.TableGroupCache.invalidate(self)
+                if runner.heap is not None:
+                    runner.heap.sync_tables(self)
                 runner.log.append(('#inval', 'done', [], tables.MAXIMUM_NUMBER_OF_CACHED_TABLE_GROUPS))
 
         tables.TableGroupCacheManager._TABLE_GROUP_CACHE = LoggingCache()
+        # heap audit (harness/c13heap.py): the write discipline of the heap model (Msg/Heap.lean) checked on this process
+        self.heap = None
+        if heap:
+            from harness import c13heap
+            self.heap = c13heap.HeapAudit(key_str, ckey_str)
         if limit is not None:
             tables.MAXIMUM_NUMBER_OF_CACHED_TABLE_GROUPS = limit
         self.coders = {}
@@ -541,12 +588,18 @@ class Runner(object):
 
                 def logged(template, table_group, _orig=orig, _mgr=mgr, _name=name):
                     tag = 'ok'
+                    heap_ = runner.heap
+                    if heap_ is not None:
+                        prev = heap_.enter('compile', _name)
                     try:
                         return _orig(template, table_group)
                     except BaseException as e:
                         tag = core.err_tag(e)
                         raise
                     finally:
+                        if heap_ is not None:
+                            heap_.leave(prev)
+                            heap_.sync_compiled(_name, _mgr)     # evicted templates forgotten, a new one snapshotted + registered
                         runner.clog.append((_name, ckey_str((tuple(template.original_descriptor_ids), table_group.key)),
                                             tag, [ckey_str(k) for k in _mgr.cache], _mgr.cache_max))
                         runner.elog.append(('c', _name, ckey_str((tuple(template.original_descriptor_ids), table_group.key)), tag))
@@ -566,6 +619,19 @@ class Runner(object):
             raise
         finally:
             self.elog.append(('p', tag))
+
+    def managers(self):
+        return {'%s:%s' % k: c.compiled_template_manager for k, c in self.coders.items() if c.compiled_template_manager is not None}
+
+    def heap_check(self, i, op, ok, final=False):
+        """heap audit after operation i: digests of every cache entry; identity of the descriptors of a new message"""
+        h = self.heap
+        cache = self.tables.TableGroupCacheManager._TABLE_GROUP_CACHE
+        if ok and op['k'] == 'proc':
+            msg = self.objs.get((op['src'], op['c'], op['m']))
+            if msg is not None:
+                h.check_message(msg, cache)
+        h.after_op(cache, self.managers(), final=final)
 
     def snapshot(self):
         """what the session model keeps as state: keys of the table-group cache, keys of every coder's compiled-template
@@ -668,28 +734,34 @@ def run_history(task):
     devnull = open(os.devnull, 'w')
     sys.stderr = devnull
     pool = load_pool(task['pool'])
-    r = Runner(pool, task.get('limit'))
+    r = Runner(pool, task.get('limit'), heap=task.get('heap', True))
     out = []
     st = []
     audit = None
     for i, op in enumerate(task['ops']):
         n0 = len(r.elog)
+        if r.heap is not None:
+            r.heap.begin_op(i)
+        ok = True
         try:
             out.append(r.do(op))
         except Exception as e:
             out.append(core.err_tag(e))
+            ok = False
         st.append({'ev': [list(e) for e in r.elog[n0:]], 'snap': r.snapshot()})
         if audit is None and task.get('audit', True):
             a = r.audit()
             if a:
                 audit = (i, a)
-    return {'out': out, 'log': r.log, 'clog': r.clog, 'audit': audit, 'st': st}
+        if r.heap is not None:
+            r.heap_check(i, op, ok, final=(i == len(task['ops']) - 1))
+    return {'out': out, 'log': r.log, 'clog': r.clog, 'audit': audit, 'st': st, 'heap': r.heap.result() if r.heap is not None else None}
 
 
 def run_fresh(task):
     """one operation as the first thing a fresh interpreter does (default cache limit) -> (output, stage events)"""
     res = run_history({'pool': task['pool'], 'limit': None, 'ops': [task['op']]})
-    return res['out'][0], res['st'][0]['ev']
+    return res['out'][0], res['st'][0]['ev'], res['heap']
 
 
 # ---------------------------------------------------------------------------------------------
@@ -1399,6 +1471,148 @@ def session_correspondence(ctx, hists, results, distinct, refs, refev, pool_cls)
                           signature={'kind': 'session-correspondence', 'what': why[0]})
 
 
+HEAP_PROBES = 12                  # operations re-run in the same process after a violation of the write discipline
+HEAP_SEARCHES_PER_SIGNATURE = 3   # histories searched for a failing input per distinct violation
+HEAP_SEARCHES = 24                # per run
+
+
+def heap_probes(ops, vi, group, facts):
+    """the operations of ops[:vi+1] that are run once more, in the same process, after operation vi wrote to an object
+    reachable from a cache: every distinct decode / encode / view once; those whose message uses the table group the
+    written object belongs to first, decodes / encodes (which go through the cached objects anew) before views of kept
+    objects, the most recent first"""
+    seen, same, other = set(), [], []
+    for op in reversed(ops[:vi + 1]):
+        if op['k'] not in ('proc', 'view', 'wire'):
+            continue
+        k = ref_key(op)
+        if k in seen:
+            continue
+        seen.add(k)
+        f = facts.get((op['src'], op['m']), {})
+        (same if group is not None and f.get('tkey') == group else other).append(op)
+    pick = sorted(same, key=lambda o: o['k'] != 'proc') + sorted(other, key=lambda o: o['k'] != 'proc')
+    pick = [dict(o) for o in pick[:HEAP_PROBES // 2]]
+    # once with the message objects the history holds, once more after they were released (everything is decoded / encoded
+    # anew through the cached objects)
+    return pick + [{'k': 'drop'}] + [dict(o) for o in pick]
+
+
+def heap_correspondence(ctx, mp, pool_path, hists, results, distinct, refs, refev, refheap):
+    """The hypothesis of the heap model (lean/BufrModel/Msg/Heap.lean; `Sep` of theorem C13_heap_refines_value_model in
+    Props/C13Heap.lean: no write reaches an object reachable from a cache outside the load / compilation of its key, the
+    per-subset lists of a coder state are shared exactly as `CoderState.__init__` is modelled) was checked on every
+    operation of every history by harness/c13heap.py.  Counters are aggregated; a history in which it does NOT hold is a
+    correspondence failure: a failing input is searched for with the fresh-interpreter oracle - (i) an output of the
+    history itself that differs from its reference, (ii) the history cut after the violating operation and extended by
+    probe operations (heap_probes) run in the same process - and reported; (iii) no output differs: reported as
+    no-failing-input-found."""
+    from harness import c13heap
+    facts = build_facts(distinct, refs, refev)
+    cands = {}
+
+    def add(limit, ops, res):
+        h = res.get('heap')
+        if not h or not h['viol']:
+            return
+        v = h['viol'][0]
+        op = ops[v['op']] if 0 <= v['op'] < len(ops) else {'k': '?'}
+        sig = {'kind': 'heap-write-reaches-cached-object', 'what': v['kind'], 'op': kind_str(op), 'where': v['sig']}
+        cands.setdefault(core.chash(sig), []).append((limit, ops, res, v, sig))
+    th = tr = 0.0
+    nh = nr = 0
+    for (limit, ops), res in zip(hists, results):
+        h = res.get('heap')
+        if not h:
+            continue
+        nh += 1
+        th += h['time']
+        ctx.count('heap:histories audited')
+        for k, n in h['counts'].items():
+            ctx.count('heap:' + k, n)
+        for recs in h['pat']:
+            for r in recs:
+                ctx.count('heap:identity pattern:' + c13heap.pattern_str(r))
+        if h['viol']:
+            ctx.count('heap:histories in which the write discipline / identity pattern of the heap model does not hold')
+        add(limit, ops, res)
+    for k, h in refheap.items():
+        if not h:
+            continue
+        nr += 1
+        tr += h['time']
+        ctx.count('heap:reference operations audited (fresh interpreter)')
+        ctx.count('heap:reference operations:snapshots taken', h['counts'].get('snapshots taken', 0))
+        if h['viol']:
+            ctx.count('heap:reference operations in which the write discipline / identity pattern of the heap model does not hold')
+        add(None, [distinct[k]], {'out': [refs[k]], 'heap': h})
+    ctx.notes.append('heap audit (harness/c13heap.py): %.1fs of CPU summed over %d history processes, %.1fs over %d reference processes'
+                     % (th, nh, tr, nr))
+    if not cands:
+        return
+
+    def where(ops, v):
+        op = ops[v['op']] if 0 <= v['op'] < len(ops) else {'k': '?'}
+        return 'operation %d (%s on %s)' % (v['op'], kind_str(op), op.get('m') or op.get('f') or op.get('v') or '-')
+    head = 'heap model hypothesis Sep does not hold of the implementation: '
+    tail = (' [Sep: no write reaches an object reachable from the table-group cache or a compiled-template cache outside the load / '
+            'compilation of its key, per-subset lists of a coder state shared as modelled; hypothesis of theorem C13_heap_refines_value_model, '
+            'lean/BufrModel/Props/C13Heap.lean]')
+    searches = []
+    done = set()
+    for key, lst in sorted(cands.items()):
+        direct = None
+        for limit, ops, res, v, sig in lst:
+            j = next((j for j in range(max(v['op'], 0), len(ops)) if ref_key(ops[j]) in refs and res['out'][j] != refs[ref_key(ops[j])]), None)
+            if j is not None:
+                direct = (limit, ops, res, v, sig, j)
+                break
+        if direct:
+            limit, ops, res, v, sig, j = direct
+            ctx.violation(head + '%s [%s]: %s; operation %d (%s on %s) of the same history gives %s, first in a fresh interpreter %s (%d histories show this violation)'
+                          % (where(ops, v), v['kind'], v['text'], j, kind_str(ops[j]), ops[j].get('m') or ops[j].get('f') or ops[j].get('v'),
+                             _short(res['out'][j]), _short(refs[ref_key(ops[j])]), len(lst)) + tail,
+                          {'mode': 'history', 'limit': limit, 'ops': ops[:j + 1], 'heap_violation': v, 'got': res['out'][j], 'fresh': refs[ref_key(ops[j])]},
+                          signature=sig)
+            done.add(key)
+            continue
+        for limit, ops, res, v, sig in lst[:HEAP_SEARCHES_PER_SIGNATURE]:
+            if len(searches) < HEAP_SEARCHES:
+                vi = min(max(v['op'], 0), len(ops) - 1)
+                searches.append((key, limit, ops[:vi + 1], heap_probes(ops, vi, v.get('group'), facts), v, sig, len(lst)))
+    sres = mp.map(run_history, [{'pool': pool_path, 'limit': limit, 'ops': prefix + probes} for _, limit, prefix, probes, _, _, _ in searches], chunksize=1) if searches else []
+    ctx.count('heap:failing-input searches (history cut after the violating operation + probe operations)', len(searches))
+    ctx.count('heap:probe operations run', sum(len(x[3]) for x in searches))
+    for pas in (0, 1):
+        for (key, limit, prefix, probes, v, sig, nlst), r in zip(searches, sres):
+            if key in done:
+                continue
+            ext = prefix + probes
+            j = next((j for j in range(len(prefix), len(ext)) if ref_key(ext[j]) in refs and r['out'][j] != refs[ref_key(ext[j])]), None)
+            if pas == 0 and j is not None:
+                done.add(key)
+                ctx.violation(head + '%s [%s]: %s; running %s on %s once more afterwards in the same process gives %s, first in a fresh interpreter %s (%d histories show this violation)'
+                              % (where(prefix, v), v['kind'], v['text'], kind_str(ext[j]), ext[j].get('m') or ext[j].get('v'),
+                                 _short(r['out'][j]), _short(refs[ref_key(ext[j])]), nlst) + tail,
+                              {'mode': 'history', 'limit': limit, 'ops': ext[:j + 1], 'heap_violation': v, 'got': r['out'][j], 'fresh': refs[ref_key(ext[j])]},
+                              signature=sig)
+            elif pas == 1:
+                done.add(key)
+                nprobe = sum(len(x[3]) for x in searches if x[0] == key)
+                ctx.violation(head + '%s [%s]: %s. No output of the %d histories that show this violation or of %d probe operations (the decodes / encodes / views '
+                              'of the history run once more after the violating operation in the same process, with the kept message objects and after releasing them) differs from a fresh interpreter'
+                              % (where(prefix, v), v['kind'], v['text'], nlst, nprobe) + tail,
+                              {'mode': 'history', 'limit': limit, 'ops': prefix, 'heap_violation': v, 'probes': probes},
+                              signature=sig, no_failing_input=True)
+    for key, lst in sorted(cands.items()):
+        if key not in done:      # more distinct violations than the search budget of this run
+            limit, ops, res, v, sig = lst[0]
+            ctx.violation(head + '%s [%s]: %s. No output of the %d histories that show this violation differs from a fresh interpreter (no probe '
+                          'operations run: the budget of %d searches per run was spent on other violations)' % (where(ops, v), v['kind'], v['text'], len(lst), HEAP_SEARCHES) + tail,
+                          {'mode': 'history', 'limit': limit, 'ops': ops[:max(v['op'], 0) + 1], 'heap_violation': v},
+                          signature=sig, no_failing_input=True)
+
+
 def evaluate_histories(ctx, mp, pool_path, pool, hists, kinds=None):
     """hists: list of (limit, ops).  Runs references (fresh interpreter per distinct op), the histories, compares."""
     pool_cls = {m['name']: m['cls'] for m in pool['msgs']}
@@ -1414,6 +1628,7 @@ def evaluate_histories(ctx, mp, pool_path, pool, hists, kinds=None):
     fres = mp.map(run_fresh, [{'pool': pool_path, 'op': distinct[k]} for k in keys], chunksize=1)
     refs = {k: r[0] for k, r in zip(keys, fres)}
     refev = {k: r[1] for k, r in zip(keys, fres)}
+    refheap = {k: r[2] for k, r in zip(keys, fres)}
     # cross-check: a sample of the operations in interpreters started from scratch ('spawn')
     srng = ctx.rng('spawn-sample')
     sample = srng.sample(keys, min(len(keys), 96 if ctx.tier == 'quick' else 960))
@@ -1439,6 +1654,10 @@ def evaluate_histories(ctx, mp, pool_path, pool, hists, kinds=None):
     results = mp.map(run_history, [{'pool': pool_path, 'limit': limit, 'ops': ops} for limit, ops in hists], chunksize=1)
     ctx.notes.append('timing: %d reference operations in fresh interpreters %.1fs, %d histories %.1fs' % (len(keys), t1 - t0, len(hists), time.time() - t1))
     session_correspondence(ctx, hists, results, distinct, refs, refev, pool_cls)
+    from harness import c13heapmodel
+    c13heapmodel.heap_correspondence(ctx, sys.modules[__name__], hists, results, distinct, refs, refev,
+                                     [(distinct[k], (r[2] if len(r) > 2 else None)) for k, r in zip(keys, fres)])
+    heap_correspondence(ctx, mp, pool_path, hists, results, distinct, refs, refev, refheap)
     logged = []
     for hi, ((limit, ops), res) in enumerate(zip(hists, results)):
         ctx.count('oracle:histories:kind:' + kinds[hi])
